@@ -199,6 +199,13 @@ def run_history(hist, timeout=40):
                 for p in glob.glob(os.path.join(d, "o", "*.fifo")):
                     os.remove(p)
                 if had: hist.rows.append(dict(e="cleanup"))
+            elif step[0] == "truncate":   # a kill inside ioutil.WriteFile (after the truncation, before the write) leaves a 0-byte file
+                for rel in step[1]:
+                    fp = os.path.join(d, rel)
+                    if os.path.exists(fp): open(fp, "w").close()
+            elif step[0] == "cleanup_tmp_only":     # the user removes the temp directories but overlooks the FIFOs
+                for p in glob.glob(os.path.join(d, "_scipipe_tmp*")):
+                    shutil.rmtree(p, ignore_errors=True)
             elif step[0] == "delete":
                 for fid in step[1]:
                     for suf in (".txt", ".txt.audit.json") if (len(step) > 2 and step[2]) else (".txt",):
